@@ -25,7 +25,80 @@ THEOREMS = [
     "O2P.Gate.cover_spec",
     "O2P.Gate.cover_sound",
     "O2P.Gate.cover_sound_universe",
+    "O2P.Gate.or_inference_sound",
+    "O2P.Gate.or_test_spec",
 ]
+
+
+def gen_ptree(r: Any, names: list[str], depth: int) -> Any:
+    """a parallel node as the miner leaves it: mandatory leaves / XOR groups, optional branches X(tau, …), now and
+    then a child of another kind (which the code drops), nested parallel nodes below optional branches"""
+    def take() -> str | None:
+        return names.pop() if names else None
+    kids: list[Any] = []
+    for _ in range(r.choice([2, 2, 3, 4])):
+        k = r.random()
+        a = take()
+        if a is None:
+            break
+        if k < 0.3:
+            kids.append(a)
+        elif k < 0.65:
+            kids.append(["X", None, a] if r.random() < 0.7 else ["X", a, None])
+        elif k < 0.8:
+            b = take()
+            kids.append(["X", a, b] if b else a)
+        elif k < 0.9:
+            b = take()
+            inner = ["X", a, b] if b else a
+            kids.append(["X", None, inner])
+        elif k < 0.95 and depth > 0 and len(names) >= 2:
+            names.append(a)
+            kids.append(["X", None, gen_ptree(r, names, depth - 1)])
+        else:
+            b = take()
+            kids.append(["->", a, b] if b else a)       # another operator: neither mandatory nor optional
+    return ["+"] + kids
+
+
+def infer_or_part(ctx: Ctx, quick: bool) -> None:
+    """infer_or_gate_from_node / check_is_or_operator: the real rewrite equals the model's on generated raw trees"""
+    r = ctx.rng
+    inputs = []
+    for _ in range(1200 if quick else 15000):
+        names = list("abcdefgh")
+        r.shuffle(names)
+        tree = gen_ptree(r, names, 2)
+        labels = [x for x in "abcdefgh" if x not in names]
+        sets = [sorted(r.sample(labels, r.randrange(1, len(labels) + 1))) for _ in range(r.choice([1, 2, 3, 5]))] \
+            if labels else []
+        inputs.append((sets, tree))
+    ctx.tick("infer_or_inputs", len(inputs))
+    lres = pvlib.lean([{"op": "gate.inferor", "sets": s, "tree": t} for s, t in inputs])
+    B = 200
+    reqs = [{"op": "infer_or", "inputs": inputs[i:i + B], "hash_seed": 0, "timeout": 120, "base": i}
+            for i in range(0, len(inputs), B)]
+    for rq, rp in zip(reqs, pvlib.run_requests(reqs)):
+        if "error" in rp:
+            ctx.broken_ties.append(f"infer_or worker failed: {rp['error'][:120]}")
+            continue
+        for j, got in enumerate(rp["results"]):
+            sets, tree = inputs[rq["base"] + j]
+            lr = lres[rq["base"] + j]
+            inp = {"sets": sets, "tree": tree}
+            if "error" in got:
+                ctx.tick("infer_or_impl_error")
+                if "error" not in lr:
+                    ctx.violation(f"infer_or_gate_from_node raised {got['error']}", {"input": inp}, key=("ior", sets, tree))
+                continue
+            if "error" in lr:
+                ctx.broken_ties.append(f"model driver: {lr['error']}")
+                continue
+            ctx.tick("infer_or_rewritten" if got["node"] != tree else "infer_or_unchanged")
+            if got["node"] != lr["node"] or got["all"] != lr["all"]:
+                ctx.violation("correspondence: infer_or_gate_from_node / get_extended_or_gates_from_process_tree and the "
+                              "Lean model rewrite the raw tree differently",
+                              {"input": inp, "impl": got, "model": lr}, key=("corrior", sets, tree), concrete=False)
 
 
 def cover_part(ctx: Ctx, quick: bool) -> None:
@@ -131,6 +204,7 @@ def run(ctx: Ctx) -> None:
         ctx.leanchecker(["O2P.Props.C06"])
     quick = ctx.tier == "quick"
     cover_part(ctx, quick)
+    infer_or_part(ctx, quick)
     sizes = [2, 3, 4, 5] if quick else [2, 3, 4, 5, 6]
     doms = pvlib.lean([{"op": "gate.domain", "n": n} for n in sizes], timeout=3600)
     items: list[dict[str, Any]] = []
